@@ -14,6 +14,8 @@ void *vsim_peek_userptr(const struct ssl *ssl);
 size_t vsim_sizeof_ssl(void);
 int vsim_peek_outlen(const struct ssl *ssl);
 int vsim_peek_inlen(const struct ssl *ssl);
+int vsim_peek_insize(const struct ssl *ssl);
+int vsim_peek_outsize(const struct ssl *ssl);
 int vsim_peek_err(const struct ssl *ssl);
 int vsim_peek_dtls_flight_done(const struct ssl *ssl);
 int vsim_peek_dtls_appdata_exch(const struct ssl *ssl);
